@@ -278,7 +278,7 @@ def main(argv=None):
     cross = None
     if hasattr(mod, 'oracle_payload'):
         try:
-            cross = run_oracle(prop, mod.oracle_payload(tier, seed, mode='search'))
+            cross = run_oracle(prop, mod.oracle_payload(tier, seed, mode='search'), timeout=(600 if tier == 'quick' else 3600))
             res.crosscheck = {k: cross[k] for k in cross if k not in ('deviations',)}
         except Exception as e:
             res.errors.append('oracle failed: %s' % e)
